@@ -68,6 +68,18 @@ CONSTANTS NS,        \* key spaces (prefix databases) 1..NS
                          \* TRUE: write_txn() first - the waiting batch owns the write transaction (careless variant)
           NestedCloseClearsMark, \* FALSE: THREAD_TX_COUNTS counts the thread's open transactions (the code);
                          \* TRUE: it is a set of marks - closing ANY transaction of the thread wipes the mark (careless variant)
+          LiveSized,     \* FALSE: env_size() = page size x LAST PAGE NUMBER, the high-water mark of the data file - what LMDB itself
+                         \* compares with the map when it allocates (the code); TRUE: env_size() = the pages that hold live data
+                         \* (pages on the free list "are going to be reused") - careless variant: under a reader that pins an old
+                         \* snapshot freed pages are NOT reusable, rewrites make the file grow although the live data does not
+          Page,          \* DatabaseIterator loads the keys of its snapshot page by page: Page keys at a time (10 000 in the code)
+          PageBySkipCur, \* FALSE: the next page starts after the keys handed out so far (skip_total; the code);
+                         \* TRUE: after the position within the current page (skip_cur) - careless variant: from the third page on
+                         \* the second page is read again and again
+          PageFreshSnap, \* FALSE: every page of keys (and every value) is read through the ONE read transaction the iterator was
+                         \* opened with (the code); TRUE: load_next_keys() opens a fresh read transaction for each further page
+                         \* (so as not to pin one snapshot for a long scan) - careless variant: the pages come from different
+                         \* committed versions, the iterator sees part of a batch and, addressed by position, skips / repeats keys
           ReadNotCounted \* FALSE: Store::get_ser / exists hold their TxCounter for as long as their read transaction (the code);
                          \* TRUE: the guard is dropped as soon as the read transaction has been opened (careless variant)
 
@@ -82,7 +94,9 @@ Untouched == -1      \* overlay has no entry for the cell
 ASSUME Vals \subseteq (Nat \ {0})
 \* The resize policy (RESIZE_PERCENT = 0.9, checked only when a batch is opened) keeps at
 \* least 10 % of the map free at Begin. The property is claimed for batches below that.
-ASSUME MapInit >= Chunk /\ UsedInit \in 0..MapInit
+\* (MapInit < Chunk: a fresh production database - LMDB's default map is smaller than the 128 MiB chunk - is enlarged to one
+\* chunk by the first batch(): the `mapSize < Chunk` arm of needs_resize; MC_KV_prodchunk)
+ASSUME MapInit > 0 /\ Chunk > 0 /\ UsedInit \in 0..MapInit /\ Page \in Nat \ {0}
 \* The map is enlarged only BETWEEN batches (Store::batch -> maybe_resize), never for the batch that needs the space:
 \* a batch can count on the 10 % only. NoMapFull holds under SmallBatches /\ SqueezedFits; without them the code's policy
 \* cannot hold it (MC_KV_bigbatch, MC_KV_squeeze violate NoMapFull; both counterexamples are reproduced on the real Store).
@@ -147,13 +161,20 @@ IterFrom(m, sp, k) == IF k > NK THEN <<>>
 IterRes(m, sp) == IterFrom(m, sp, 1)
 
 \* resize policy of needs_resize() in integer arithmetic
-NeedsResize == used * 10 > mapSize * 9 \/ mapSize < Chunk
+\* `used` is the high-water mark (last page number): freed pages are counted as never reused - exactly true while a reader
+\* pins the snapshot they belonged to (rewrites / deletes under a held iterator), pessimistic otherwise.
+\* Live = what a live-page count would report: the initial fill plus one PutCost per cell that holds a value.
+Live == UsedInit + PutCost * Cardinality({c \in Cells : committed[c] # NoVal})
+SizeSeen == IF LiveSized THEN Live ELSE used
+NeedsResize == SizeSeen * 10 > mapSize * 9 \/ mapSize < Chunk
 NewSize == IF mapSize < Chunk THEN Chunk
            ELSE LET base == mapSize - (mapSize % Chunk)
                     cand == {base + i * Chunk : i \in 0..((used * 2) \div Chunk + 2)}
                     ok   == {t \in cand : used * 100 <= t * 65}
                 IN CHOOSE t \in ok : \A t2 \in ok : t <= t2
 
+\* DatabaseIterator::read_key_page: the keys of the snapshot, `skip` of them skipped, at most Page taken
+KeyPage(L, skip) == SubSeq(L, skip + 1, IF skip + Page < Len(L) THEN skip + Page ELSE Len(L))
 NoReaderOpen == \A r \in Readers : snap[r] = NoSnap
 \* the transactions a thread holds at this instant: its iterators, its read in flight, its batch
 HoldsIt(t) == Cardinality({r \in Readers : snap[r] # NoSnap /\ snap[r].th = t})
@@ -303,20 +324,29 @@ ReadEnd(t) == /\ rd[t] # NoRd /\ ~Parked(t)
 
 OutIterOpen(t, r, sp) ==
          /\ t \in ItThreads /\ Idle(t) /\ snap[r] = NoSnap /\ CanEnter(t)
-         /\ snap' = [snap EXCEPT ![r] = [open |-> TRUE, m |-> committed, sp |-> sp, pos |-> 0, th |-> t]]
+         /\ LET pg == KeyPage(IterRes(committed, sp), 0) IN   \* DatabaseIterator::new loads the first page
+            snap' = [snap EXCEPT ![r] = [open |-> TRUE, m |-> committed, sp |-> sp, pos |-> 0, th |-> t,
+                                         keys |-> pg, cur |-> 0, tot |-> 0, done |-> (pg = <<>>)]]
          /\ Entered(t)
          /\ act' = [k |-> "OutIterOpen", t |-> t, r |-> r, sp |-> sp]
          /\ UNCHANGED <<committed, stack, shadow, bown, rd, space, resizing, wait, torn>>
 
 NextKeys(s) == {k2 \in Keys : k2 > s.pos /\ s.m[<<s.sp, k2>>] # NoVal}
+\* DatabaseIterator::next, implementation-shaped: hand out the next key of the loaded page (skip_cur, skip_total + 1); when
+\* the page is used up load_next_keys() reads the next one (skip = skip_total) - an empty page ends the iteration.
+\* `pos` keeps the definitional position (the last key handed out); PageWalk / IterInOrder tie the two together.
 OutIterNext(r) == /\ snap[r] # NoSnap /\ Idle(snap[r].th)
-                  /\ LET s == snap[r] nk == NextKeys(s) IN
-                     IF nk = {} THEN
-                        /\ snap' = [snap EXCEPT ![r].pos = NK + 1]
+                  /\ LET s == snap[r]
+                         L == IterRes(IF PageFreshSnap THEN committed ELSE s.m, s.sp)
+                         inpage == s.cur < Len(s.keys)
+                         pg   == IF inpage THEN s.keys ELSE KeyPage(L, IF PageBySkipCur THEN s.cur ELSE s.tot)
+                         cur0 == IF inpage THEN s.cur ELSE 0
+                     IN IF s.done \/ pg = <<>> THEN
+                        /\ snap' = [snap EXCEPT ![r].pos = NK + 1, ![r].done = TRUE, ![r].keys = <<>>, ![r].cur = 0]
                         /\ act' = [k |-> "OutIterNext", r |-> r, res |-> <<>>]
-                     ELSE LET k1 == CHOOSE k2 \in nk : \A k3 \in nk : k2 <= k3 IN
-                        /\ snap' = [snap EXCEPT ![r].pos = k1]
-                        /\ act' = [k |-> "OutIterNext", r |-> r, res |-> <<k1, s.m[<<s.sp, k1>>]>>]
+                     ELSE
+                        /\ snap' = [snap EXCEPT ![r].pos = pg[cur0 + 1][1], ![r].keys = pg, ![r].cur = cur0 + 1, ![r].tot = s.tot + 1]
+                        /\ act' = [k |-> "OutIterNext", r |-> r, res |-> pg[cur0 + 1]]
                   /\ UNCHANGED <<committed, stack, shadow, bown, rd, space, gate>>
 
 OutIterClose(r) == /\ snap[r] # NoSnap /\ Idle(snap[r].th)
@@ -379,7 +409,8 @@ TypeOK == /\ committed \in Maps
           /\ \A i \in 1..Depth : stack[i] \in Overlays /\ shadow[i] \in Maps
           /\ bown \in Threads \cup {0} /\ (bown = 0 <=> stack = <<>>)
           /\ \A r \in Readers : snap[r] = NoSnap \/
-                (snap[r].open /\ snap[r].m \in Maps /\ snap[r].sp \in Spaces /\ snap[r].pos \in 0..NK + 1 /\ snap[r].th \in Threads)
+                (snap[r].open /\ snap[r].m \in Maps /\ snap[r].sp \in Spaces /\ snap[r].pos \in 0..NK + 1 /\ snap[r].th \in Threads
+                 /\ Len(snap[r].keys) <= Page /\ snap[r].cur \in 0..Len(snap[r].keys) /\ snap[r].tot \in Nat /\ snap[r].done \in BOOLEAN)
           /\ \A t \in Threads : rd[t] = NoRd \/
                 (rd[t].open /\ rd[t].sp \in Spaces /\ rd[t].key \in Keys /\ rd[t].val \in Vals \cup {NoVal})
           /\ mapSize \in Nat /\ used \in Nat /\ pend \in 0..BatchMax
@@ -436,6 +467,19 @@ SnapStable == [][/\ \A r \in Readers :
                      /\ (rd[t] # NoRd /\ rd'[t] # NoRd) => rd'[t] = rd[t]
                      /\ (rd[t] = NoRd /\ rd'[t] # NoRd) => rd'[t].val = committed[<<rd'[t].sp, rd'[t].key>>]
                      /\ (act'.k = "ReadEnd" /\ act'.t = t) => act'.res = rd[t].val]_vars
+\* key paging is invisible: the page-by-page walk hands out exactly the snapshot's entries, in key order, each once, across
+\* every page boundary (the count of keys handed out is the index of the last one in the snapshot's ordered list) ...
+PageWalk == \A r \in Readers : snap[r] # NoSnap =>
+                LET s == snap[r] L == IterRes(s.m, s.sp) IN
+                /\ s.tot <= Len(L)
+                /\ (s.pos = 0 => s.tot = 0)
+                /\ (s.pos \in 1..NK => (s.tot >= 1 /\ L[s.tot][1] = s.pos))
+                /\ (s.pos = NK + 1 => s.tot = Len(L))
+\* ... and every single step yields what the definitional iterator (next greater key present in the snapshot) yields
+IterInOrder == [][\A r \in Readers : (act'.k = "OutIterNext" /\ act'.r = r) =>
+                     LET s == snap[r] nk == NextKeys(s) IN
+                     act'.res = IF nk = {} THEN <<>>
+                                ELSE LET k1 == CHOOSE k2 \in nk : \A k3 \in nk : k2 <= k3 IN <<k1, s.m[<<s.sp, k1>>]>>]_vars
 \* resize and crash do not touch committed data; a crash discards exactly the open batch
 ResizeStutter == [][act'.k \in {"Resize", "BeginWait", "ResizeRefused", "ParkNested"} => UNCHANGED <<committed, stack, shadow, snap, rd>>]_vars
 CrashDurable  == [][act'.k = "Crash" => (committed' = committed /\ stack' = <<>>)]_vars
